@@ -26,22 +26,49 @@ TIMER_HEAVY = dict(p_timer=0.5, p_cancel=0.25, p_send=0.2, p_local=0.05, p_once=
                    locals=(2, 3), procs=(1, 3))
 
 
+FAULTY = dict(nodes=(2, 3), procs=(2, 3), p_send=0.7, p_local=0.15, p_timer=0.1, acts=(1, 3), rules=(2, 4), locals=(1, 2))
 SAME_NODE = dict(nodes=(1, 2), procs=(2, 4), p_send=0.6, p_local=0.15, p_timer=0.15, acts=(1, 3), rules=(2, 5), locals=(1, 3))
+
+
+def gen_fault_walk(rng, walk):
+    """template: at snapshot time a timer is pending whose handler sends quoted messages across nodes; two or three fault kinds
+    are on, so the simulator's continuation draws combinations (intact duplicates, corrupted duplicates, drops) that the checker
+    must all have explored"""
+    seed = rng.randrange(12)
+    k = rng.randint(1, 2)
+    lines = [f"seed {seed}", f"draws {sim_suite.draws_for(seed)}", "node n0", "node n1", "proc p0 n0", "proc p1 n1 rec"]
+    sends = " ".join(f'S:m{j}:="q{j}":p1' for j in range(1, k + 1))
+    lines += [f"rule p0 0 L:m0 1 T:t0:{rng.randint(1, 2)}", f"rule p0 1 T:t0 2 {sends}",
+              "rule p1 0 M:m1 0 L:m3:$", "rule p1 0 M:m2 0 L:m4:$"]
+    lines.append(f"net delays {rng.choice([1, 2])} {rng.choice([3, 4])}")
+    for kd in rng.sample(["drop", "dupl", "corrupt"], rng.choice([2, 2, 3])):
+        lines.append(f"net {kd} {sim_suite.fbits(0.5)}")
+    lines += ["local p0 m0 =go", "refenum", f"mc run {rng.choice(['dfs', 'bfs'])} {rng.choice(['full', 'disabled'])} inv=none goal=noev prune=none collect=none"]
+    for _ in range(walk):
+        lines += ["step", "proj"]
+    lines += ["steps 3", "obs"]
+    return lines
 
 
 def gen_snapshot_scenario(rng, with_steps=True, faults=True, walk=0):
     """a simulated prefix, then `mc run` (snapshot + exploration), optionally followed by a simulated walk"""
+    if faults and walk and rng.random() < 0.2:
+        return gen_fault_walk(rng, walk)
     r = rng.random()
-    topo, rules, locals_ = base_system(rng, TIMER_HEAVY if r < 0.4 else SAME_NODE if r < 0.6 else None)
+    faulty = faults and 0.6 <= r < 0.8
+    topo, rules, locals_ = base_system(rng, TIMER_HEAVY if r < 0.4 else SAME_NODE if r < 0.6 else FAULTY if faulty else None)
     nodes = [l.split()[1] for l in topo if l.startswith("node")]
     seed = rng.randrange(12)
     lines = [f"seed {seed}", f"draws {sim_suite.draws_for(seed)}"] + topo + rules
     if rng.random() < 0.5:
         a = rng.choice([0, 1, 2]); lines.append(f"net delays {a} {a + rng.choice([1, 3])}")
     if faults:
-        for k in ("drop", "dupl", "corrupt"):
-            if rng.random() < 0.3:
-                lines.append(f"net {k} {rng.choice([sim_suite.fbits(0.5), sim_suite.fbits(0.25)])}")
+        ks = [k for k in ("drop", "dupl", "corrupt") if rng.random() < 0.3]
+        if faulty:
+            # several fault kinds at once: the simulator may draw any combination for one message
+            ks = rng.sample(["drop", "dupl", "corrupt"], rng.choice([2, 2, 3]))
+        for k in ks:
+            lines.append(f"net {k} {rng.choice([sim_suite.fbits(0.5), sim_suite.fbits(0.25)])}")
     if rng.random() < 0.35:
         # node-level controls also on single-node systems: traffic inside a node must not be affected by them
         a = rng.choice(nodes); b = rng.choice([n for n in nodes if n != a] or [a])
